@@ -57,6 +57,13 @@ def fixed_cases(tier):
         out.append(mk(r, [I64MAX - 1, I64MAX], discs=[_lit(I64MAX - 1), None]))
     for r in ("u64", "u128"):
         out.append(mk(r, [0, I64MAX - 1, I64MAX]))
+    # declaration order that wraps around the i64 range: MAX immediately followed by an explicit MIN, other steps +1
+    for r in ("i64", "i128", "isize"):
+        out.append(mk(r, [I64MAX - 1, I64MAX, I64MIN, I64MIN + 1], discs=[_lit(I64MAX - 1), None, _lit(I64MIN), None]))
+        out.append(mk(r, [I64MAX, I64MIN]))
+    for r in ("i8", "i16", "i32"):
+        lo, hi = M.repr_range(r)
+        out.append(mk(r, [hi - 1, hi, lo, lo + 1], discs=[_lit(hi - 1), None, _lit(lo), None]))
     for r in ("i8", "i16", "i32", "isize"):
         lo, hi = M.repr_range(r)
         out.append(mk(r, [lo, lo + 1, -3, -2, 4, hi], feats=("as_str", "iter", "range", "into", "try_from", "next", "next_back"),
